@@ -25,7 +25,8 @@ PROOF = {
                                               "C17_real_tables", "C17_taskpool_examples"],
             "files": _FILES + ["ctrl/CRound.v", "ctrl/Thm_C17.v"]},
     "C18": {"module": "Thm_C18", "theorems": ["C18_one_reply_per_line", "C18_reply_is_own_output",
-                                              "C18_buffer_empty", "C18_no_call_on_error"],
+                                              "C18_buffer_empty", "C18_no_call_on_error",
+                                              "C18_sessions_isolated"],
             "files": _FILES + ["ctrl/CSess.v", "ctrl/Thm_C18.v"]},
 }
 
